@@ -94,6 +94,8 @@ def run_audit(args) -> int:
         repo=args.repo, jobs=args.jobs, seeds=args.seeds, seed_base=args.seed_base, isolate_reference=args.tier == "thorough",
         replay_sample=args.replay_sample, cover=args.cover, cold_start=args.cold_start, run_wall_cap=args.run_wall_cap,
         worker_timeout=args.worker_timeout, min_budget=args.min_budget, replay_dir=args.replay_dir, label="premise",
+        crash_points=96 if args.tier == "quick" else None, switch_points=64 if args.tier == "quick" else None,
+        switch_cap=600 if args.tier == "quick" else 20000,
     )  # fmt: skip
     try:
         if args.leg in ("all", "dynamic") and ex.load_catalogue():
